@@ -275,6 +275,13 @@ pub enum MultiProofVerificationError {
     PathsOutOfOrder,
     /// Extra siblings were provided.
     TooManySiblings,
+    /// Fewer siblings were provided than the paths require.
+    TooFewSiblings,
+    /// The depth of a path is not consistent with its terminal or with the other paths: it exceeds
+    /// the terminal's own path, or lies above the point where the path separates from the others.
+    InvalidDepth,
+    /// The terminal of one path is a prefix of the terminal of another.
+    PathPrefixOfAnother,
 }
 
 #[derive(Debug, Clone)]
@@ -479,7 +486,18 @@ fn verify_range<H: NodeHasher>(
         // at a terminal node, 'siblings' will contain all unique
         // nodes, hash them up, and return that
         let terminal_path = &paths[0];
+        // A malformed multi-proof is an error, never a panic: the depth must lie between the
+        // depth at which this path separated from the others and the end of the terminal's own
+        // path, and the siblings for it must have been supplied.
+        if terminal_path.depth < start_depth
+            || terminal_path.depth > terminal_path.terminal.path().len()
+        {
+            return Err(MultiProofVerificationError::InvalidDepth);
+        }
         let unique_len = terminal_path.depth - start_depth;
+        if siblings.len() < unique_len {
+            return Err(MultiProofVerificationError::TooFewSiblings);
+        }
 
         let node = hash_path::<H>(
             terminal_path.terminal.node::<H>(),
@@ -502,13 +520,30 @@ fn verify_range<H: NodeHasher>(
     let start_path = &paths[0];
     let end_path = &paths[paths.len() - 1];
 
+    if start_path.terminal.path().len() < start_depth
+        || end_path.terminal.path().len() < start_depth
+    {
+        return Err(MultiProofVerificationError::PathPrefixOfAnother);
+    }
+
     let common_bits = shared_bits(
         &start_path.terminal.path()[start_depth..],
         &end_path.terminal.path()[start_depth..],
     );
 
     let common_len = start_depth + common_bits;
-    // TODO: if `common_len` == 256 the multi-proof is malformed. error
+
+    // Every path of the range must continue past the common prefix, otherwise one terminal is a
+    // prefix of another (in particular `common_len` == 256 is malformed).
+    if paths
+        .iter()
+        .any(|path| path.terminal.path().len() <= common_len)
+    {
+        return Err(MultiProofVerificationError::PathPrefixOfAnother);
+    }
+    if siblings.len() < common_bits {
+        return Err(MultiProofVerificationError::TooFewSiblings);
+    }
 
     let uncommon_start_len = common_len + 1;
 
